@@ -24,7 +24,7 @@ ASSUMPTIONS = ["the contracts listed for C32 (one in-order socket reader, broadc
                "event-listener: a listener created before notify() is woken by it; notify(1) wakes the stream's own listener "
                "(one PropertyStream per property)",
                "property values are plain data (no file descriptors: OwnedValue::try_from cannot fail)"]
-PARTIAL = ["C31_cache_partial", "C31_owner_release_buffered_refuted"]
+PARTIAL = []
 
 SNAP = "Rs0=1;1=2;3=3"
 U1 = g.props(1, 0, [(0, 7)], [])
@@ -176,13 +176,13 @@ ENABLED = True
 LEVEL = "proof"
 LEVEL_TEXT = ("Theorems in coq/theories/Properties/C31.v about a Gallina mirror of PropertiesCache::{new,init,keep_updated,"
               "update_cache}, Proxy::cached_property_raw / receive_property_changed and PropertyStream::poll_next, on top of the C32 "
-              "model (the update stream is a SignalStream; ordered_stream::Join transcribed line by line). For every bus history, "
-              "every position of the GetAll reply among the change signals and EVERY interleaving of socket reader, caching task and "
-              "consumer: nothing is cached before the snapshot; whenever the task has caught up each cached value equals the fold of "
-              "the received history (snapshot, then later changes / invalidations of the proxy's interface from the destination's "
-              "owner, uncached names excluded); uncached names never hold a value; other interfaces leave the cache untouched; a "
-              "silent property stream has reported the cached value. PARTIAL: C32's release_buffered class is inherited through the "
-              "PropertiesChanged stream (refuted witness, confirmed on the real code, known finding).")
+              "model (the update stream is a SignalStream, as repaired by 902c9069; ordered_stream::Join transcribed line by line). "
+              "For every bus history, every position of the GetAll reply among the change signals and EVERY interleaving of socket "
+              "reader, caching task and consumer, at FULL strength (no known class left): nothing is cached before the snapshot; "
+              "whenever the task has caught up each cached value equals the fold of the received history (snapshot, then later "
+              "changes / invalidations of the proxy's interface from the destination's owner, uncached names excluded); uncached "
+              "names never hold a value; other interfaces leave the cache untouched; a silent property stream has reported the "
+              "cached value; the witness of the repaired finding now runs as specified.")
 LEVEL_NOTE = ("Trusted: Coq kernel; the hand-written model, tied to the code by running the real Proxy with CacheProperties::Yes / "
               "Lazily over a real bus connection against an in-process scripted bus on ~12k (quick) histories x batchings and comparing "
               "readiness, cached_property_raw of four properties after every batch and PropertyStream items; the substrate contracts "
